@@ -13,6 +13,7 @@ Extraction "model.ml"
   reduced_palette sorted_palette sorted_palette_mzeng sorted_palette_battiato scale_16_to_8
   crc32 default_options from_preset strip_keep is_c2pa parse_next_chunk parse_ihdr_chunk srgb_rendering_intent
   preprocess_chunks postprocess_chunks from_slice output perform_reductions optimize_raw optimize_png optimize_from_memory
+  evaluator_trials evaluator_best perform_trials
   is_fully_optimized raw_image_new raw_add_chunk raw_add_icc raw_create best_of sequential run init_state min_by_key completeb
   raw_data_size interlace_image deinterlace_image change_interlacing
   paeth_spec spec_recon_line spec_filter_line spec_recon_seq
